@@ -232,13 +232,20 @@ Record filer := { f_path : option path; f_temp : bool; f_fext : seg; f_tmp : pat
 
 Inductive hop :=
 | HReopen (temp : option bool) (fext : option seg) (clear reuse clean : bool)
-| HClose (clear : bool).
+| HClose (clear : bool)
+(* a direct call filer.remake(name=, base=, temp=, clean=, filed=, extensioned=, fext=) with its own
+   arguments; it returns a path and changes nothing of the object *)
+| HRemake (name base : list seg) (temp clean filed ext : bool) (fext : seg).
 
 Definition tmp_dir (c : config) (k : nat) : path := dirname (c_tmp c) ++ [[84; 48 + N.of_nat k]%N].
 
 Definition cfg_with (c : config) (temp clean : bool) (fext : seg) (tmp : path) : config :=
   {| c_name := c_name c; c_base := c_base c; c_temp := temp; c_clean := clean; c_filed := c_filed c;
      c_ext := c_ext c; c_fext := fext; c_head := c_head c; c_alt := c_alt c; c_tmp := tmp |}.
+
+Definition cfg_call (c : config) (name base : list seg) (temp clean filed ext : bool) (fext : seg) (tmp : path) : config :=
+  {| c_name := name; c_base := base; c_temp := temp; c_clean := clean; c_filed := filed;
+     c_ext := ext; c_fext := fext; c_head := c_head c; c_alt := c_alt c; c_tmp := tmp |}.
 
 (* _clearPath with the object's current attributes *)
 Definition clear_st (c : config) (st : filer) (w : world) : res unit * world :=
@@ -256,6 +263,13 @@ Definition run_hop (c : config) (st : filer) (h : hop) (w : world) : res unit * 
   match h with
   | HClose cl =>
     if cl then let (r, w') := clear_st c st w in (r, st, w') else (Ok tt, st, w)
+  | HRemake nm bs t cl fl ex fx =>
+    let c' := cfg_call c nm bs t cl fl ex fx (tmp_dir c (f_next st)) in
+    let (r, w') := remake c' w in
+    let rejected := match r with Exc OtherErr => true | _ => false end in   (* FilerError: before mkdtemp *)
+    (match r with Ok _ => Ok tt | Exc k => Exc k end,
+     {| f_path := f_path st; f_temp := f_temp st; f_fext := f_fext st; f_tmp := f_tmp st;
+        f_next := if t && negb rejected then S (f_next st) else f_next st |}, w')
   | HReopen temp fext cl reuse clean =>
     let (r0, w0) := if cl then clear_st c st w else (Ok tt, w) in
     match r0 with
@@ -352,6 +366,8 @@ Fixpoint hop_branches (c : config) (st : filer) (hs : list hop) (w : world) : li
   | h :: hs' =>
     let '(r, st', w') := run_hop c st h w in
     (match h, r with
+     | HRemake _ _ _ _ _ _ _, Exc _ => 31
+     | HRemake _ _ _ _ _ _ _, _ => 30
      | _, Exc _ => 29
      | HClose true, _ => 27
      | HClose false, _ => 28
@@ -383,4 +399,4 @@ Definition case_branches (k : case) : list nat :=
     end
   | Exc _ => []
   end.
-Definition n_branches : nat := 30.
+Definition n_branches : nat := 32.
